@@ -196,4 +196,26 @@ if concrete_run():
 return ok
 """
     out.append(mk_case("c10.yaml.history", [("u1", "Union[int, bool, None]"), ("u2", "int")], body, pre=[f"BU({L}, u1, u2)"], stubs=["sym_repr"]))
+    # rule lists holding blocks that parse to ==-equal rules (the same check documented twice, a conjunction written in the
+    # other operand order, a block repeated): every block is a rule of the schema, as in the API-built one
+    body = """
+specs = [{'path': ['sizes', {'type': 'list_value'}], 'condition': {'value.greater_than': t}, 'doc': 'Every size is positive.'},
+         {'path': ['sizes', {'type': 'list_value'}], 'condition': {'value.greater_than': t}, 'doc': {'description': 'In millimetres.', 'examples': ['sizes: [10]']}},
+         {'path': ['n'], 'condition': {'and': [{'value.greater_than': t}, {'value.less_than': 9}]}},
+         {'path': ['n'], 'condition': {'and': [{'value.less_than': 9}, {'value.greater_than': t}]}}]
+api = Schema([Rule(('sizes', ListValue()), Value.greater_than(t)), Rule(('sizes', ListValue()), Value.greater_than(t)),
+              Rule(('n',), Value.greater_than(t) & Value.less_than(9)), Rule(('n',), Value.less_than(9) & Value.greater_than(t))])
+doc = {'sizes': [u2, 12], 'n': u2}
+w = api.validate(doc)
+routes = [('Schema.from_json_like', Schema.from_json_like(specs)), ('Schema(init_rules)', Schema(Schema.init_rules(specs)))]
+if concrete_run():
+    routes.append(('Schema.from_yaml', Schema.from_yaml(yaml_text({'rules': specs}))))
+ok = True
+for label, sch in routes:
+    ok = ok and note(label + ': as many rules as blocks', len(sch.rules) == 4) and note(label + ': equals the API-built schema', sch == api)
+    v = sch.validate(doc)
+    ok = ok and same(label + ': validates identically', (v.is_valid, v.num_failures, v.num_rules_tested), (w.is_valid, w.num_failures, w.num_rules_tested))
+return ok
+"""
+    out.append(mk_case("c10.schema.equal_rule_blocks", [("t", "int"), ("u2", "int")], body, pre=[f"BU({L}, t, u2)"], stubs=["sym_repr"]))
     return out
